@@ -44,7 +44,8 @@ def aesthetics(flux, invvar, method='traditional'):
         elif method == 'mean':
             newflux = flux.copy()
             goodpts = invvar > 0
-            newflux[~goodpts] = newflux[goodpts].mean()
+            if goodpts.any():
+                newflux[~goodpts] = newflux[goodpts].mean()
         elif method == 'damp':
             l = 250  # damping length in pixels
             goodpts = invvar.nonzero()[0]
